@@ -803,7 +803,16 @@ func (s *Session) itemLocs(se *SpecEnv, item string) ([]modLoc, error) {
 				}
 			}()
 			return s.evalSpec(se, e), true
-		}(); ok && v.Loc == nil && len(v.L) == 3 && v.Typ != nil {
+		}(); ok && v.Loc == nil && len(v.L) == 1 && v.Typ != nil {
+			if mt, isMap := v.Typ.Underlying().(*types.Map); isMap {
+				domN, cardN, valN, valS, _ := s.mapHeaps(se.st, mt)
+				out = append(out, modLoc{heap: domN, sort: arrSort(arrSort(SBool)), ref: v.L[0]}, modLoc{heap: cardN, sort: arrSort(SInt), ref: v.L[0]})
+				for i := range valN {
+					out = append(out, modLoc{heap: valN[i], sort: valS[i], ref: v.L[0]})
+				}
+				return out, nil
+			}
+		} else if ok && v.Loc == nil && len(v.L) == 3 && v.Typ != nil {
 			if ut, isSl := v.Typ.Underlying().(*types.Slice); isSl {
 				eloc := &Loc{Kind: "A", TypeKey: typeKey(ut.Elem()), Ref: v.L[0], Typ: ut.Elem()}
 				names, sorts, _ := locHeaps(eloc)
